@@ -862,6 +862,48 @@ def r7_single_parser(rep, facts):
     rep.check(R, 'winnow|positive-control', npos >= 60, f'{npos} winnow-mentioning bodies found', f'only {npos} winnow-mentioning bodies: query broken')
 
 
+# parser function -> ABNF rule it transcribes; `modulo` = byte class the function additionally consumes up front for a reviewed reason
+RULE_MAP = {
+    'trivia::ws': ('ws', None), 'trivia::comment': ('comment', None), 'trivia::newline': ('newline', None),
+    'trivia::ws_comment_newline': ('ws-comment-newline', None),
+    'strings::string': ('string', None), 'strings::basic_string': ('basic-string', None), 'strings::ml_basic_string': ('ml-basic-string', None),
+    'strings::literal_string': ('literal-string', None), 'strings::ml_literal_string': ('ml-literal-string', None), 'strings::escaped': ('escaped', None),
+    'strings::escape_seq_char': ('escape-seq-char', None), 'strings::mlb_content': ('mlb-content', None), 'strings::mll_content': ('mll-content', None),
+    'strings::mlb_escaped_nl': ('mlb-escaped-nl', None), 'strings::ml_basic_body': ('ml-basic-body', None), 'strings::ml_literal_body': ('ml-literal-body', None),
+    'strings::basic_chars': ('basic-char', None),
+    'numbers::integer': ('integer', None), 'numbers::dec_int': ('dec-int', None), 'numbers::hex_int': ('hex-int', None), 'numbers::oct_int': ('oct-int', None),
+    'numbers::bin_int': ('bin-int', None), 'numbers::float': ('float', None), 'numbers::frac': ('frac', None), 'numbers::exp': ('exp', None),
+    'numbers::zero_prefixable_int': ('zero-prefixable-int', None), 'numbers::special_float': ('special-float', None), 'numbers::inf': ('inf', None),
+    'numbers::nan': ('nan', None), 'numbers::true_': ('true', None), 'numbers::false_': ('false', None), 'numbers::boolean': ('boolean', None),
+    'datetime::date_time': ('date-time', None), 'datetime::full_date': ('full-date', None), 'datetime::partial_time': ('partial-time', None),
+    'datetime::time_offset': ('time-offset', None), 'datetime::time_secfrac': ('time-secfrac', None), 'datetime::time_delim': ('time-delim', None),
+    'datetime::date_fullyear': ('date-fullyear', None), 'datetime::date_month': ('date-month', None), 'datetime::date_mday': ('date-mday', None),
+    'datetime::time_hour': ('time-hour', None), 'datetime::time_minute': ('time-minute', None), 'datetime::time_second': ('time-second', None),
+    'array::array': ('array', None), 'inline_table::inline_table': ('inline-table', None), 'key::unquoted_key': ('unquoted-key', None),
+    'key::simple_key': ('simple-key', None), 'value::value': ('val', None), 'table::std_table': ('std-table', None), 'table::array_table': ('array-table', None),
+    'table::table': ('table', None),
+    # key() lexes the whitespace around each segment itself (the ABNF attributes it to dot-sep / keyval-sep / expression)
+    'key::key': ('key', 'wschar'), 'document::parse_keyval': ('keyval', 'wschar'), 'inline_table::keyval': ('keyval', 'wschar'),
+}
+
+
+def r8_first_sets(rep, g, a):
+    R = rep.rule('C01/R8', 'every parser function that transcribes an ABNF rule has the FIRST set and the nullability of that rule (computed on the '
+                 'combinator model, dispatch-aware): a dropped alternative, a dropped opt() or a mandatory token made optional changes one of them', floor=52)
+    facts = g.facts
+    for fn, (rule, modulo) in sorted(RULE_MAP.items()):
+        t = term(g, fn)
+        loc = facts.loc(facts.body(P + fn))
+        ff = pm.first_of(g, t)
+        nn = pm.nullable_of(g, t)
+        af = a.first(rule)
+        an = a.nullable(rule)
+        extra_ok = cc(a, modulo) if modulo else frozenset()
+        ok = (ff - extra_ok) == (af - extra_ok) and (af <= ff) and nn == an
+        rep.check(R, f'{fn}~{rule}', ok, f'FIRST {fmt_set(ff)}, nullable {nn}',
+                  f'`{fn}` transcribes `{rule}` but starts with {fmt_set(ff - af)} in addition / lacks {fmt_set(af - ff)}, nullable {nn} vs {an} in the ABNF', loc)
+
+
 def rules(rep, facts):
     feats = set(facts.crates.get('toml_edit', {}).get('features', []))
     if 'toml_edit' not in facts.crates or 'parse' not in feats:
@@ -875,6 +917,7 @@ def rules(rep, facts):
     r4_dispatch(rep, g, a)
     r5_filters(rep, g, a)
     r6_lines(rep, g, a)
+    r8_first_sets(rep, g, a)
     if 'toml' in facts.crates:
         r7_single_parser(rep, facts)
 
